@@ -66,6 +66,12 @@ func (s *Selector) selectAllAncestorsForBuild(
 				depChain[0], depChainStr, config.Global.GetPlatform())
 		}
 
+		if ancestor.GetIsSelected() {
+			// Already selected together with all of its ancestors:
+			// do not walk the same sub-graph once per dependency path
+			continue
+		}
+
 		ancestor.Select()
 		if err := s.selectAllAncestorsForBuild(graph, nextChain, ancestor); err != nil {
 			return err
